@@ -206,6 +206,9 @@ class Runner:
             raise Undecided("cbmc ignored a quantifier in %s" % tag)
         canary = [p for p in props if CANARY in p["description"]]
         oblig = [p for p in props if CANARY not in p["description"]]
+        unw = [p for p in oblig if p["status"] != "SUCCESS" and "unwinding assertion" in p["description"]]
+        if unw:
+            raise Undecided("unwinding bound %s too small in %s: %s" % (unit.unwind, tag, ", ".join(p["property"] for p in unw[:4])))
         if not unit.no_canary:
             if not canary:
                 raise Undecided("no canary obligation in %s" % tag)
@@ -218,9 +221,6 @@ class Runner:
         if unit.loop_contracts and not any("loop invariant" in p["description"].lower() for p in oblig):
             raise Undecided("loop contracts requested but no loop-invariant obligations generated for %s" % tag)
         failed = [p for p in oblig if p["status"] != "SUCCESS"]
-        unw = [p for p in failed if "unwinding assertion" in p["description"]]
-        if unw:
-            raise Undecided("unwinding bound %s too small in %s: %s" % (unit.unwind, tag, ", ".join(p["property"] for p in unw[:4])))
         res = {
             "unit": unit.name, "tag": tag, "target": unit.target, "dir": d,
             "obligations": len(oblig), "discharged": len(oblig) - len(failed), "postconditions": len(post),
@@ -290,10 +290,12 @@ class Runner:
                     if not params:
                         snap = dict(state)
                 continue
-            if st.get("stepType") != "assignment" or st.get("hidden"):
+            if st.get("stepType") != "assignment":
                 continue
             lhs = st.get("lhs", "")
             val = st.get("value", {})
+            if st.get("hidden") and "dynamic_object" not in lhs:
+                continue
             if lhs.startswith("__dfcc") or lhs.startswith("__CPROVER") or "write_set" in lhs:
                 continue
             flat = {}
@@ -316,18 +318,32 @@ class Runner:
             for k, val in snap.items():
                 if k.startswith(p + ".") or k.startswith(p + "["):
                     inputs[k] = val
-        # pointees: parameter value like dynamic_object$10, &dynamic_object$9[0], &local!0@1
-        for p in params:
-            v = str(snap.get(p, ""))
+        # ghost globals (g_*) carry the contract's snapshot of the entry state
+        for k, val in snap.items():
+            if k.startswith("g_"):
+                inputs[k] = val
+        # pointees, transitively: a value naming dynamic_object$N / a local object brings in that object's fields under "<path>@"
+        work = [(k, str(v)) for k, v in list(inputs.items())]
+        seen_obj = set()
+        while work:
+            path, v = work.pop()
             m = re.search(r"(dynamic_object\$?\d*|[A-Za-z_]\w*!\d+@\d+)", v)
             if not m:
                 continue
             obj = m.group(1)
+            if (path, obj) in seen_obj or len(inputs) > 4000:
+                continue
+            seen_obj.add((path, obj))
             for k, val in snap.items():
                 if k == obj:
-                    inputs[p + "@"] = val
+                    nk = path + "@"
                 elif k.startswith(obj + ".") or k.startswith(obj + "["):
-                    inputs[p + "@" + k[len(obj):]] = val
+                    nk = path + "@" + k[len(obj):]
+                else:
+                    continue
+                if nk not in inputs:
+                    inputs[nk] = val
+                    work.append((nk, str(val)))
         return inputs, "\n".join(excerpt[-200:])
 
 
@@ -342,7 +358,7 @@ def flatten_value(lhs, val, out):
         for e in val["elements"]:
             flatten_value("%s[%s]" % (lhs, e.get("index", "?")), e.get("value", {}), out)
     elif "data" in val:
-        out[lhs] = val["data"]
+        out[re.sub(r"\[(\d+)l\]", r"[\1]", lhs)] = val["data"]
     elif val.get("name") == "unknown":
         pass
 
